@@ -5,8 +5,19 @@
 #[verifier::reject_recursive_types(E)]
 //@ enditem
 
-//@ item src/sources/generic.rs / impl AsFd for NoIoDrop<T> props=C16
+//@ region noiodrop_axiom props=C16
+/// ASSUMED: the descriptor of the newtype wrapper is the descriptor of what it wraps
+#[verifier::external_body]
+proof fn axiom_noiodrop_fd<T>(a: &NoIoDrop<T>)
+    ensures crate::ext::fd_raw(a) == crate::ext::fd_raw(&a.0),
+{}
+//@ endregion
+//@ open src/sources/generic.rs / impl AsFd for NoIoDrop<T>
+//@ item src/sources/generic.rs / impl AsFd for NoIoDrop<T> / fn as_fd props=C16
+//@ entry
+        proof { axiom_noiodrop_fd(self); }
 //@ enditem
+//@ close
 
 //@ region generic_specs props=C16,C01,C07,C15
 impl<F: AsFd, E> Generic<F, E> {
@@ -14,6 +25,12 @@ impl<F: AsFd, E> Generic<F, E> {
     pub closed spec fn tok(&self) -> Option<Token> { self.token }
     pub closed spec fn has_poller(&self) -> bool { self.poller is Some }
     pub closed spec fn has_file(&self) -> bool { self.file is Some }
+    /// the descriptor of the wrapped object (ghost)
+    pub closed spec fn raw(&self) -> int { crate::ext::fd_raw(&self.file->Some_0.0) }
+    pub closed spec fn want_interest(&self) -> Interest { self.interest }
+    pub closed spec fn want_mode(&self) -> Mode { self.mode }
+    /// the OS poller remembered at registration (to delete the fd on unwrap/drop)
+    pub closed spec fn stored_poller(&self) -> crate::polling::Poller { *self.poller->Some_0 }
 }
 //@ endregion
 
@@ -33,7 +50,37 @@ impl<F: AsFd, E> Generic<F, E> {
 //@ spec
         requires self.has_file(),
 //@ enditem
+//@ slice src/sources/generic.rs / impl Generic<F, E> / fn unwrap :: body props=C16 name=Generic::unwrap
+//@ rw R16 * <<self>> => <<slf>>
+//@ sig
+    /// S1 slice: the whole body of Generic::unwrap. Rule R16: the by-value `mut self` receiver (unsupported) becomes a
+    /// `&mut` parameter `slf`; dropped: the implicit drop of `self` at the end (it finds file and poller already taken).
+    fn unwrap_body(slf: &mut Generic<F, E>) -> (r: F)
+//@ spec
+        requires old(slf).has_file(),
+        ensures
+            // C16: a Generic that still remembers a poller (i.e. is registered) deletes its fd from THAT poller before it
+            // hands the object back: nothing stale stays behind
+            old(slf).has_poller() ==> old(slf).stored_poller().w_delete_called(old(slf).raw()),
+            !final(slf).has_poller() && !final(slf).has_file(),
+//@ entry
+        proof { if slf.has_file() { axiom_noiodrop_fd(&slf.file->Some_0); } }
+//@ endslice
 //@ close
+impl<F: AsFd, E> Generic<F, E> {
+//@ slice src/sources/generic.rs / impl Drop for Generic<F, E> / fn drop :: body props=C16 name=Generic::drop
+//@ sig
+    /// S1 slice: the whole body of `impl Drop for Generic`, lifted into an ordinary method (Verus demands
+    /// `opens_invariants none / no_unwind` of a Drop impl, which the std callees here do not declare).
+    fn drop_body(&mut self)
+//@ spec
+        ensures
+            // C16: dropping a Generic that still remembers a poller deletes its fd from that poller
+            (old(self).has_file() && old(self).has_poller()) ==> old(self).stored_poller().w_delete_called(old(self).raw()),
+//@ entry
+        proof { if self.has_file() { axiom_noiodrop_fd(&self.file->Some_0); } }
+//@ endslice
+}
 
 //@ open src/sources/generic.rs / impl EventSource for Generic<F, E>
 //@ rw R5 1 <<E: Into<Box<dyn std::error::Error + Send + Sync>>,>> => <<>>
@@ -89,17 +136,40 @@ impl<F: AsFd, E> Generic<F, E> {
         ensures
             old(self).tok() == Some(token) ==> exists|m0: &mut NoIoDrop<F>| #[trigger] call_ensures(callback, (readiness, m0), r),
 //@ enditem
-//@ item src/sources/generic.rs / impl EventSource for Generic<F, E> / fn register props=C16,C15,C01 ret=r
+//@ item src/sources/generic.rs / impl EventSource for Generic<F, E> / fn register props=C16,C15,C01,C02 ret=r
 //@ spec
         ensures
             r is Ok ==> (final(self).tok() matches Some(t) && t.tok() == old(token_factory).next()),
+            // C16: Ok means the wrapped fd HAS been added to the OS poller, with the interest and mode the Generic was
+            // built with and under the key of exactly the token it now remembers (and compares events against) ...
+            r is Ok ==> old(poll).pl().w_added(old(self).raw(), crate::sys::expected_event(old(self).want_interest(), final(self).tok()->Some_0),
+                                          crate::sys::spec_cvt_mode(old(self).want_mode(), old(poll).pl().spec_supports_level())),
+            // ... and the poller remembered for unwrap/drop is that very poller
+            r is Ok ==> final(self).stored_poller() == old(poll).pl(),
+            final(self).raw() == old(self).raw(), final(self).want_interest() == old(self).want_interest(), final(self).want_mode() == old(self).want_mode(),
+//@ entry
+        proof { broadcast use crate::ext::axiom_fd_raw_ref; }
 //@ enditem
-//@ item src/sources/generic.rs / impl EventSource for Generic<F, E> / fn reregister props=C16,C15,C01 ret=r
+//@ item src/sources/generic.rs / impl EventSource for Generic<F, E> / fn reregister props=C16,C15,C01,C02 ret=r
 //@ spec
         ensures
             r is Ok ==> (final(self).tok() matches Some(t) && t.tok() == old(token_factory).next()),
+            // C16/C02: Ok means the kernel registration HAS been replaced by (interest, mode, key of the token now remembered):
+            // the key the kernel reports and the token process_events compares against cannot drift apart
+            r is Ok ==> old(poll).pl().w_modified(old(self).raw(), crate::sys::expected_event(old(self).want_interest(), final(self).tok()->Some_0),
+                                             crate::sys::spec_cvt_mode(old(self).want_mode(), old(poll).pl().spec_supports_level())),
+            final(self).raw() == old(self).raw(), final(self).want_interest() == old(self).want_interest(), final(self).want_mode() == old(self).want_mode(),
+//@ entry
+        proof { broadcast use crate::ext::axiom_fd_raw_ref; }
 //@ enditem
 //@ item src/sources/generic.rs / impl EventSource for Generic<F, E> / fn unregister props=C16,C15,C07 ret=r
+//@ spec
+        ensures
+            // C16: Ok means the wrapped fd HAS been deleted from the OS poller
+            r is Ok ==> old(poll).pl().w_deleted(old(self).raw()),
+            final(self).raw() == old(self).raw(),
+//@ entry
+        proof { broadcast use crate::ext::axiom_fd_raw_ref; }
 //@ enditem
 //@ close
 
